@@ -24,8 +24,9 @@ FileOf(t, j) ==
 
 Preps == SubSeq([p \in 1..NProg |-> Prepare(Rec[p].c.renders[1].text)], 1, NProg)
 \* steps of thread t for program p: its policy calls one after the other
+\* (forced into explicit tuples: a lazy [t \in .. |-> ..] would re-run the policy on every access)
 StepsOf(p) ==
-  [t \in Threads |-> Flatten([j \in 1..Calls |-> RunPolicy(Preps[p], FileOf(t, j)).fx])]
+  SubSeq([t \in 1..NThreads |-> Flatten([j \in 1..Calls |-> RunPolicy(Preps[p], FileOf(t, j)).fx])], 1, NThreads)
 StepTable == SubSeq([p \in 1..NProg |-> StepsOf(p)], 1, NProg)
 MutexesOf(p) == UNION {{StepTable[p][t][i].m : i \in {i \in 1..Len(StepTable[p][t]) : StepTable[p][t][i].e \in {"lock", "unlock"}}} : t \in Threads}
 Usable(p) == Preps[p].ok /\ Len(Preps[p].scans) = 1
